@@ -325,6 +325,7 @@ def counter_facts(ctx, body, facts):
     (B not assigned in the body's loops) satisfies v <= B everywhere, provided c0 <= B is itself provable (c0 = 0)"""
     sy = ctx.sym(body)
     cfg = ctx.cfg(body)
+    pending = []
     for l, ds in body.defs().items():
         if len(ds) < 2 or body.local_ty(l) != "usize":
             continue
@@ -342,12 +343,24 @@ def counter_facts(ctx, body, facts):
                 gf = []
                 guard_facts(ctx, body, dbi, gf, before_site_stmts=True)
                 found = None
+                hdr = cfg.inner_header(dbi)
                 for f in gf:
                     if f.form.co.get(("var", l)) == -1 and f.form.c == -1:
                         rest = {k: c for k, c in f.form.co.items() if k != ("var", l)}
-                        if len(rest) == 1 and list(rest.values())[0] == 1:
-                            found = list(rest)[0]
-                if found is None or (bound is not None and bound != found):
+                        if not rest:
+                            continue
+                        # the bound may be a linear form (`right < len - left`); every variable in it must be stable in the
+                        # loop that increments the counter
+                        stable = True
+                        for k in rest:
+                            for y in S.walk(k) if isinstance(k, tuple) else ():
+                                if isinstance(y, tuple) and y and y[0] == "var" and isinstance(y[1], int):
+                                    for _, kbi, _, _ in body.defs().get(y[1], []):
+                                        if hdr is not None and cfg.in_natural_loop(kbi, hdr):
+                                            stable = False
+                        if stable:
+                            found = tuple(sorted((repr(k), c) for k, c in rest.items())), rest
+                if found is None or (bound is not None and bound[0] != found[0]):
                     ok = False
                     break
                 bound = found
@@ -355,5 +368,15 @@ def counter_facts(ctx, body, facts):
                 ok = False
                 break
         if ok and bound is not None:
-            facts.append(Fact(Lin({bound: 1, ("var", l): -1}), "counter induction: starts at 0, +1 only while < bound"))
+            co = dict(bound[1])
+            co[("var", l)] = -1
+            if len(bound[1]) == 1 and list(bound[1].values()) == [1]:
+                facts.append(Fact(Lin(co), "counter induction: starts at 0, +1 only while < bound"))
+            else:
+                pending.append((Lin(dict(bound[1])), Lin(co)))
+    # a bound that is a linear form (`len - left`) must itself be non-negative for the base case 0 <= bound
+    for bl, form in pending:
+        base = list(facts) + [Fact(Lin({k: 1}), "unsigned") for k in bl.co]
+        if prove(bl, base) is not None:
+            facts.append(Fact(form, "counter induction: starts at 0, +1 only while < bound"))
     return facts
